@@ -21,7 +21,7 @@ RULE = ("1-8 stations registered in random order, then 1-25 add/remove/update/qu
         ">=1 remove or update and >=1 composed Current; distinct = distinct operation/expression-shape sequence")
 PROBES = ["composed_current", "scalar_multiple_operand", "remove", "update", "update_new_name", "rejected_unknown_station",
           "rejected_unknown_name", "late_register_rejected", "subset_query_reordered", "time_subset_query", "time_window_permuted",
-          "duplicate_name", "unnamed", "series_leaf", "json_restart", "plain_series_operand", "update_derived_from_old_row", "time_window_negative"]
+          "duplicate_name", "unnamed", "series_leaf", "json_restart", "plain_series_operand", "update_derived_from_old_row", "time_window_negative", "shared_operand_world"]
 FAULT_DIMENSION = "restart (network saved to JSON and loaded mid-history); rejected operations (unknown station / unknown name / late register_evse); weakest sense in which the family applies"
 REAL_VS_STUB = "real: ChargingNetwork, Current, EVSE; ours: dict-based reference network (refnet)"
 ASSUMPTIONS = ["row order is only required to be aligned with constraint_index (the position of an updated row is not constrained)",
@@ -40,6 +40,18 @@ def gen_expr(r, stations, depth=0, plain_ok=False):
     k = r.random()
     if depth >= 3 or k < 0.4:
         form = r.choice(["str", "list", "dict", "dict", "series"])
+        ksh = r.random()
+        if ksh < 0.12:
+            # one of a few operands that the whole history shares (same object every time it is used)
+            j_ = r.randrange(4)
+            rr_ = sub(("shared-leaf", tuple(stations)), j_)
+            mem_ = rr_.sample(stations, rr_.randint(1, len(stations)))
+            return {"k": "leaf", "form": "dict", "shared": j_,
+                    "terms": {m: rr_.choice([1, 1, -1, 0.25, 2]) for m in mem_}}
+        if ksh < 0.16:
+            return {"k": "leaf", "form": r.choice(["dict", "list"]), "terms": {}}       # a group with no load (yet)
+        if ksh < 0.19:
+            return {"k": "leaf", "form": "dict", "shared": 4 + r.randrange(2), "terms": {}}   # a shared empty operand
         if form == "str":
             return {"k": "leaf", "form": "str", "terms": {r.choice(stations): 1}}
         n = r.randint(1, len(stations))
@@ -53,8 +65,11 @@ def gen_expr(r, stations, depth=0, plain_ok=False):
         return {"k": "add" if k < 0.6 else "sub", "a": gen_expr(r, stations, depth + 1, plain_ok=pa),
                 "b": gen_expr(r, stations, depth + 1, plain_ok=not pa)}
     if k < 0.9 or not plain_ok:
-        return {"k": "mul", "c": r.choice([2, 0.25, -1, 0.5, 3, 1 / 4, round(r.uniform(-2, 2), 2) or 1]),
-                "side": r.choice(["l", "r", "i"]), "a": gen_expr(r, stations, depth + 1)}
+        a_ = gen_expr(r, stations, depth + 1)
+        side_ = r.choice(["l", "r", "i"])
+        if side_ == "i" and a_["k"] == "leaf" and a_.get("shared") is not None:
+            side_ = "r"      # (an in-place multiple of a shared operand would legitimately change it for everybody)
+        return {"k": "mul", "c": r.choice([2, 0.25, -1, 0.5, 3, 1 / 4, round(r.uniform(-2, 2), 2) or 1]), "side": side_, "a": a_}
     # unary minus / division by a scalar: scalar multiples spelled differently (-a == -1*a, a/2 == 0.5*a)
     if k < 0.95:
         return {"k": "mul", "c": -1, "side": "neg", "a": gen_expr(r, stations, depth + 1)}
@@ -76,10 +91,22 @@ def ev_model(e):
     return {k: v * e["c"] for k, v in a.items()}
 
 
+_POOL = [None]      # per-scenario pool of leaf Current objects that several expressions share (set by check())
+
+
 def ev_real(e):
     C = sut.Current
     if e["k"] == "leaf":
         t = e["terms"]
+        if e.get("shared") is not None and _POOL[0] is not None:
+            # the same Current object is an operand of several expressions (a panel's current re-used for its feeder, ...);
+            # every operation of the algebra returns a new Current, so sharing operands is harmless
+            key = e["shared"]
+            if key not in _POOL[0]:
+                _POOL[0][key] = (C(dict(t)) if t else (C() if key % 2 else C([])), dict(t))
+            return _POOL[0][key][0]
+        if not t:
+            return C() if e["form"] == "dict" else C([])
         if e["form"] == "str":
             return C(next(iter(t)))
         if e["form"] == "list":
@@ -168,7 +195,7 @@ def gen(rs, tier):
         elif k < 0.72:
             ops.append({"op": "update", "pick": r.randrange(10 ** 6), "expr": gen_expr(r, stations),
                         "limit": round(r.uniform(1, 500), 2), "new_name": ("u%d" % counter) if r.random() < 0.4 else None,
-                        "ghost": r.random() < 0.08,
+                        "ghost": r.random() < 0.08, "ghost_station": r.random() < 0.07,
                         # 'derive': the new Current is derived from the row being replaced (same coefficients for a strict subset of
                         # its stations / the same row with another limit / one coefficient changed) instead of being unrelated
                         "derive": r.choice([None, None, None, "drop_station", "same_row", "one_changed", "drop_all"]),
@@ -232,6 +259,7 @@ def check(sc):
         with warnings.catch_warnings():
             warnings.simplefilter("ignore")
             nw = sut.ChargingNetwork()
+            _POOL[0] = {}
             for s in stations:
                 nw.register_evse(sut.EVSE(s, max_rate=32), 208, sc["phases"][s])
             for i, op in enumerate(sc["ops"]):
@@ -310,6 +338,30 @@ def check(sc):
                         new_name = op["new_name"]
                         if new_name is not None and new_name in names:
                             new_name = None
+                        if op.get("ghost_station") and sum(1 for r_ in rows if r_["name"] == nm) == 1:
+                            # the new Current names a station that was never registered: refused with KeyError, the caller carries
+                            # on. The library implements update as remove + add, so afterwards the constraint is either untouched
+                            # or gone - in both cases rows, limits and names must still line up
+                            bad = {"k": "add", "a": e, "b": {"k": "leaf", "form": "dict", "terms": {"GHOST": 1}}}
+                            try:
+                                nw.update_constraint(nm, ev_real_checked(bad), op["limit"], new_name=new_name)
+                                out.add("C12/update_unknown_station_accepted", "op %d" % i)
+                                break
+                            except KeyError:
+                                out.probe("rejected_unknown_station")
+                            t1, t2 = Outcome(), Outcome()
+                            if compare_state(nw, rows, stations, t1, i, "refused update"):
+                                pass
+                            elif compare_state(nw, [r_ for r_ in rows if r_["name"] != nm], stations, t2, i, "refused update"):
+                                rows = [r_ for r_ in rows if r_["name"] != nm]
+                            else:
+                                out.add("C12/state_after_refused_update", "op %d: after update_constraint(%r, <Current with an unregistered station>) was "
+                                        "refused the network matches neither the state before (%s) nor the state with that constraint removed (%s)"
+                                        % (i, nm, t1.viol[0][1][:120] if t1.viol else "?", t2.viol[0][1][:120] if t2.viol else "?"))
+                                break
+                            names = [r_["name"] for r_ in rows]
+                            log.append(("update_refused", nm))
+                            continue
                         old_row = next((r_ for r_ in rows if r_["name"] == nm), None)
                         if op.get("derive") and old_row is not None and sum(1 for r_ in rows if r_["name"] == nm) == 1:
                             rd = sub(op["dseed"], "derive")
@@ -417,6 +469,14 @@ def check(sc):
                     if bad:
                         break
                     continue
+                changed = [(k_, dict(o_), sp_) for k_, (o_, sp_) in (_POOL[0] or {}).items()
+                           if {a_: float(b_) for a_, b_ in dict(o_).items()} != {a_: float(b_) for a_, b_ in sp_.items()}]
+                if changed:
+                    out.add("C12/shared_operand_changed", "after op %d (%s): a Current that was only ever an operand of + / - / scalar multiples now reads %s, "
+                            "it was built as %s (every operation of the algebra returns a new Current)" % (i, o, changed[0][1], changed[0][2]))
+                    break
+                if _POOL[0]:
+                    out.probe("shared_operand_world")
                 if not compare_state(nw, rows, stations, out, i, o):
                     break
     except AlgebraFailure as e:
